@@ -638,6 +638,8 @@ impl World {
             return;
         }
         let Some(ap) = self.parse_policy(pol) else { return };
+        // very large payloads are repeated at most twice
+        let repeat = if matches!(kind, EncKind::Pke { len } if *len > 200_000) { repeat.min(2) } else { repeat };
         for rep in 0..repeat.max(1) {
             let (mpk, mm) = self.encryptors[e].mpk.as_ref().unwrap();
             let cc = &self.encryptors[e].cc;
@@ -809,6 +811,43 @@ impl World {
                 mpk_version: self.encryptors[e].mpk.as_ref().map(|m| m.1.version).unwrap_or(0),
             });
         }
+    }
+
+    /// Encapsulations made from another OS thread on the same instance, one thread after the
+    /// other (no race): freshness must hold across threads.
+    pub fn ev_encrypt_other_thread(&mut self, e: usize, pol: &PolArg, n: u32) {
+        if e >= self.encryptors.len() || self.encryptors[e].mpk.is_none() {
+            return;
+        }
+        let Some(ap) = self.parse_policy(pol) else { return };
+        let (mpk, mm) = self.encryptors[e].mpk.as_ref().unwrap();
+        if mm.encaps(&pol.ast).is_err() {
+            return;
+        }
+        let me = mm.encaps(&pol.ast).unwrap();
+        let cc = &self.encryptors[e].cc;
+        let seed = self.seed ^ (self.now << 20) ^ 0x07E4;
+        let results: Vec<(Vec<u8>, Vec<u8>)> = std::thread::scope(|sc| {
+            sc.spawn(|| {
+                crate::seams::install_thread_seed(seed);
+                let mut out = vec![];
+                for _ in 0..n {
+                    if let Ok(Ok((s, x))) = guard(|| cc.encaps(mpk, &ap)) {
+                        if let Ok(b) = x.serialize() {
+                            out.push((s.to_vec(), b.to_vec()));
+                        }
+                    }
+                }
+                out
+            })
+            .join()
+            .unwrap_or_default()
+        });
+        self.stats.probe("encapsulation-from-another-os-thread");
+        for (s, b) in results {
+            self.register_enc(&b, &s, "encaps-other-thread", &me);
+        }
+        self.outcomes.push("encrypt-other-thread".into());
     }
 
     // -----------------------------------------------------------------------------------------
@@ -1114,6 +1153,14 @@ impl World {
                     self.ev_read(*u, slot);
                     self.outcomes.pop();
                     n += 1;
+                    if self.failed.len() > n_before && self.reduce_to.is_none() {
+                        let op = match mode {
+                            SweepMode::BitFlips => ByteOp::FlipBit { pos: i / 8, bit: (i % 8) as u8 },
+                            SweepMode::Truncations => ByteOp::Truncate { len: i },
+                            SweepMode::ByteOverwrites => ByteOp::SetByte { pos: i, val: orig[i].wrapping_add(0x55) ^ 0xa7 },
+                        };
+                        self.reduce_to = Some(vec![Ev::TamperSlot { slot, op }, Ev::Read { user: *u, slot }]);
+                    }
                 }
                 if self.failed.len() > n_before {
                     // keep the failing mutant in the detail of the first failure
@@ -1150,7 +1197,20 @@ impl World {
         let bytes = bytes.to_vec();
         let m = m.clone();
         let n_rights = m.rights.len();
-        let max_chain = m.rights.values().map(|c| c.len()).max().unwrap_or(1);
+        let max_chain = m.rights.values().map(|c| c.len()).max().unwrap_or(1).min(4);
+        // positions considered: all of them for keys of up to 10 rights, otherwise the first,
+        // the last and evenly spread ones (the operator x position space is quadratic)
+        let positions: Vec<usize> = if n_rights <= 10 {
+            (0..n_rights).collect()
+        } else {
+            let mut p: Vec<usize> = vec![0, 1, 2, n_rights - 3, n_rights - 2, n_rights - 1];
+            for k in 1..5 {
+                p.push(k * n_rights / 5);
+            }
+            p.sort_unstable();
+            p.dedup();
+            p
+        };
         let mut ops: Vec<UskOp> = vec![
             UskOp::MarkerIntoName,
             UskOp::Foreign,
@@ -1158,7 +1218,7 @@ impl World {
             UskOp::AddEmptyRight { other_user: user, j: 0, raw: vec![0x7e] },
             UskOp::AddEmptyRight { other_user: user, j: 0, raw: vec![0x7d, 0x7e] },
         ];
-        for i in 0..n_rights {
+        for &i in &positions {
             ops.push(UskOp::MergeAdjacent { i });
             ops.push(UskOp::DupRight { i });
             ops.push(UskOp::DropRight { i });
@@ -1176,7 +1236,7 @@ impl World {
                 ops.push(UskOp::SplitName { i, k });
                 ops.push(UskOp::ShiftNameBorder { i, k });
             }
-            for j in 0..n_rights {
+            for &j in &positions {
                 if i != j {
                     ops.push(UskOp::MoveSecret { from: i, to: j });
                     ops.push(UskOp::MoveSecretToEnd { from: i, to: j });
